@@ -38,7 +38,7 @@ def cases(tier, seed):
       ['mix', 'mix2', 'pos', 'neg', 'zero', 'tiny', 'big']
   wks = ['rand'] if tier == 'quick' else ['rand', 'outlier', 'const', 'zero',
                                          'tiny', 'pos']
-  for c in universe.graph_cases([(1, eg.T21, 'all', 'one')]):
+  for c in universe.graph_cases([(1, eg.T21, 'allx', 'one')]):
     for wk in ['rand', 'outlier', 'const', 'zero', 'tiny', 'pos', 'neg']:
       cc = {'ir': dict(c['ir']), 'rp': a,
             'dk': ['mix', 'mix2', 'pos', 'neg', 'zero', 'tiny', 'big']}
